@@ -117,6 +117,20 @@ func c28Parse(r *verifh.Run, l string, s string) {
 	if hexOK && len(d) == AddressLen+checksumLen {
 		valid = bytes.Equal(d[AddressLen:], hashing.Checksum(d[:AddressLen], checksumLen))
 	}
+	// accepted ⇒ the input is, up to the case of a-f and the optional 0x, exactly String()
+	if err == nil {
+		t := strings.ToLower(s)
+		if !strings.HasPrefix(s, "0x") {
+			t = "0x" + t
+		}
+		if a.String() != t {
+			key := "accepted-not-canonical-text"
+			if (len(s)-2*strings.Count(s[:min(2, len(s))], "0x"))%2 == 1 {
+				key = "odd-length-hex-accepted"
+			}
+			r.Violation(key, "StringToAddress(%q) accepted as %x although String() = %q", s, a[:], a.String())
+		}
+	}
 	switch {
 	case err == nil && !valid:
 		key := "accepted-not-an-encoding"
@@ -178,6 +192,22 @@ func c28Generate(r *verifh.Run) []string {
 	add("0")
 	add("0X" + c28WithSum(make([]byte, AddressLen)))
 	add("0x0x" + c28WithSum(make([]byte, AddressLen)))
+	// odd-length relatives of valid encodings (a lenient decoder that pads would accept them)
+	for _, typeID := range []byte{0, 1, 2, 0x0f, 0x10} {
+		var a Address
+		a[0] = typeID
+		for j := 1; j < AddressLen; j++ {
+			a[j] = byte(j)
+		}
+		g := c28WithSum(a[:])
+		for _, p := range []string{"0x", ""} {
+			add(p + g[1:])          // 73 digits: leading digit dropped
+			add(p + g[:len(g)-1])   // 73 digits: last digit dropped
+			add(p + "0" + g)        // 75 digits: extra leading zero
+			add(p + g + "0")        // 75 digits
+			add(p + "00" + g)       // 76 digits: extra leading zero byte
+		}
+	}
 
 	rng := r.RNG
 	n := r.N(6000, 200000)
@@ -239,9 +269,28 @@ func c28Generate(r *verifh.Run) []string {
 			junk := "gGxX _-.:zZ\x00\xff/@`"
 			b[rng.Intn(len(b))] = junk[rng.Intn(len(junk))]
 			add("0x" + string(b))
-		case 7: // odd length
-			cut := rng.Intn(len(good))
-			add("0x" + good[:cut|1])
+		case 7: // odd length: derived from a valid encoding (low type ids: leading digit is 0)
+			if rng.Bool() {
+				a[0] = byte(rng.Intn(16))
+				good = c28WithSum(a[:])
+			}
+			p := "0x"
+			if rng.Bool() {
+				p = ""
+			}
+			switch rng.Intn(5) {
+			case 0:
+				add(p + good[1:])
+			case 1:
+				add(p + good[:len(good)-1])
+			case 2:
+				add(p + "0" + good)
+			case 3:
+				add(p + good + "0123456789abcdef"[rng.Intn(16):][:1])
+			default:
+				cut := rng.Intn(len(good))
+				add(p + good[:cut|1])
+			}
 		case 8: // cut off inside/at the checksum
 			add("0x" + good[:len(good)-2*rng.Intn(6)])
 		case 9: // prefix variants
